@@ -1801,12 +1801,17 @@ class Interp:
             return a + b
         if isinstance(op, ast.Add) and (isinstance(a, Shape) or isinstance(b, Shape)) and isinstance(a, (Shape, tuple)) and isinstance(b, (Shape, tuple)):
             # (n,) + x.shape: a shape spelled as a tuple of extents
-            ext = lambda s_: tuple((1 if d_ is None else Arr((), alg.count(d_), unit=num(1))) for d_ in s_.dims) if isinstance(s_, Shape) else tuple(s_)
-            return ext(a) + ext(b)
+            return ext_(a) + ext_(b)
         if isinstance(op, ast.Add) and (isinstance(a, Fmt) or isinstance(b, Fmt)) and isinstance(a, (str, Fmt)) and isinstance(b, (str, Fmt)):
             fa, va = (a.fmt, a.values) if isinstance(a, Fmt) else (a.replace('%', '%%'), ())
             fb, vb = (b.fmt, b.values) if isinstance(b, Fmt) else (b.replace('%', '%%'), ())
             return Fmt(fa + fb, va + vb)
+        if isinstance(op, ast.Mult) and (isinstance(a, (tuple, list)) and isinstance(b, int) or isinstance(a, int) and isinstance(b, (tuple, list))) and not isinstance(a, bool) and not isinstance(b, bool):
+            seq_, k_ = (a, b) if isinstance(a, (tuple, list)) else (b, a)
+            if len(seq_) * max(k_, 0) <= 256:
+                return type(seq_)(seq_) * k_          # a sequence repeated: (1,) * 2 is (1, 1)
+        if isinstance(op, ast.Add) and isinstance(a, tuple) and isinstance(b, tuple):
+            return a + b
         if isinstance(op, ast.Mult) and (isinstance(a, str) and isinstance(b, int) or isinstance(a, int) and isinstance(b, str)) and not isinstance(a, bool) and not isinstance(b, bool):
             return a * b if max(len(a) if isinstance(a, str) else a, len(b) if isinstance(b, str) else b) < 100000 else Unk('string repeated many times', node)
         if isinstance(a, str) or isinstance(b, str):
@@ -3797,7 +3802,22 @@ class Interp:
                 r_ = args[0].sl_method(self, 'raw_write_array', [recv], {}, e)
                 return Unk('array written to %s' % type(args[0]).__name__, e) if r_ is NotImplemented else r_
             if name == 'reshape':
-                r_ = self._reshape_concrete(recv, list(args[0]) if len(args) == 1 and isinstance(args[0], (tuple, list)) else list(args), e)
+                sh_ = list(args[0]) if len(args) == 1 and isinstance(args[0], (tuple, list)) else (list(ext_(args[0])) if len(args) == 1 and isinstance(args[0], Shape) else list(args))
+                # the same axes in the same order with axes of one position put in or taken out: x.reshape(x.shape + (1, 1)), x.reshape(n, 1), ...
+                if recv.mask is None and sh_:
+                    labs_ = []
+                    for v_ in sh_:
+                        a_ = self._as_arr(v_)
+                        if isinstance(v_, int) and not isinstance(v_, bool) and v_ == 1:
+                            labs_.append(None)
+                        elif isinstance(a_, Arr) and a_.ndim == 0 and _len_label(a_.poly) is not None:
+                            labs_.append(_len_label(a_.poly))
+                        else:
+                            labs_ = None
+                            break
+                    if labs_ is not None and [l_ for l_ in labs_ if l_ is not None] == [d_ for d_ in recv.dims if d_ is not None]:
+                        return recv.with_(dims=tuple(labs_))
+                r_ = self._reshape_concrete(recv, sh_, e)
                 return r_ if r_ is not None else Unk('reshape', e)
             if name == 'argsort':
                 return self.libcall('numpy.argsort', [recv], kw, e, mod)
@@ -4572,6 +4592,11 @@ def _is_index_alt(v):
     if isinstance(v, _SelectVal):
         return _is_index_alt(v.a) and _is_index_alt(v.b)
     return isinstance(v, _SliceVal) or isinstance(v, Arr) and v.ndim == 1 and v.mask is None
+
+
+def ext_(s_):
+    """a shape as the tuple of its extents"""
+    return tuple((1 if d_ is None else Arr((), alg.count(d_), unit=num(1))) for d_ in s_.dims) if isinstance(s_, Shape) else tuple(s_)
 
 
 def _pure_fn(fi):
